@@ -3,6 +3,7 @@
 package props
 
 import (
+	"bytes"
 	"crypto/sha256"
 	"encoding/binary"
 	"encoding/hex"
@@ -257,4 +258,40 @@ func retainObserve(c *fw.Ctx, fam string, bc barcode.Barcode, desc string, size 
 		retainRing = retainRing[:len(retainRing)-1]
 	}
 	retainRing = append(retainRing, retainedBC{bc, sig, desc})
+}
+
+// ---- rejection interleaving: an error path must not leave state behind.  Every
+// decoding check calls poison() regularly between accepted calls: requests that are
+// refused only after a valid prefix has been processed.
+
+var poisonCount int
+
+func poison(fam string, full bool) {
+	poisonCount++
+	var reqs []Req
+	switch fam {
+	case "code39":
+		reqs = []Req{{Fam: fam, S: []byte("ab\u00e9"), I: []int64{1, 1}, Scheme: -1}, {Fam: fam, S: []byte("AB*"), I: []int64{0, 0}, Scheme: -1}, {Fam: fam, S: []byte("XYa"), I: []int64{1, 0}, Scheme: -1}, {Fam: fam, S: []byte("$%\u0141"), I: []int64{0, 1}, Scheme: -1}}
+	case "code93":
+		reqs = []Req{{Fam: fam, S: []byte("caf\u00e9"), I: []int64{1, 1}, Scheme: -1}, {Fam: fam, S: []byte("AB*"), I: []int64{0, 0}, Scheme: -1}, {Fam: fam, S: []byte("XYa"), I: []int64{1, 0}, Scheme: -1}, {Fam: fam, S: []byte("+/\u20ac"), I: []int64{0, 1}, Scheme: -1}}
+	case "code128", "code128nocs":
+		reqs = []Req{{Fam: fam, S: []byte("1234ab\u00e9"), Scheme: -1}, {Fam: fam, S: []byte("\x01A\u0100"), Scheme: -1}}
+	case "ean":
+		reqs = []Req{{Fam: fam, S: []byte("123456x"), Scheme: -1}, {Fam: fam, S: []byte("12345678901x"), Scheme: -1}, {Fam: fam, S: []byte("12345671"), Scheme: -1}}
+	case "2of5":
+		reqs = []Req{{Fam: fam, S: []byte("471x"), I: []int64{1}, Scheme: -1}, {Fam: fam, S: []byte("47x1"), I: []int64{1}, Scheme: -1}, {Fam: fam, S: []byte("12x"), I: []int64{0}, Scheme: -1}, {Fam: fam, S: []byte("123"), I: []int64{1}, Scheme: -1}}
+	case "codabar":
+		reqs = []Req{{Fam: fam, S: []byte("A12x3B"), Scheme: -1}, {Fam: fam, S: []byte("A123"), Scheme: -1}}
+	case "qr":
+		reqs = []Req{{Fam: fam, S: []byte("HELLO WORLd"), I: []int64{1, 2}, Scheme: -1}, {Fam: fam, S: []byte("12345x"), I: []int64{2, 1}, Scheme: -1}, {Fam: fam, S: []byte("AB\u0141"), I: []int64{0, 2}, Scheme: -1}}
+	case "pdf417":
+		reqs = []Req{{Fam: fam, S: []byte("abc;;\x80"), I: []int64{9}, Scheme: -1}}
+	case "aztec":
+		reqs = []Req{{Fam: fam, S: []byte("a1!\x80,. "), I: []int64{33, 33}, Scheme: -1}, {Fam: fam, S: bytes.Repeat([]byte("x.y, "), 30), I: []int64{33, -1}, Scheme: -1}}
+	case "datamatrix":
+		reqs = []Req{{Fam: fam, S: bytes.Repeat([]byte{0xff}, 800), Scheme: -1}}
+	}
+	if len(reqs) > 0 {
+		reqs[poisonCount%len(reqs)].call()
+	}
 }
